@@ -78,7 +78,7 @@ fn members(kind: ArgKind, tier: Tier) -> Vec<String> {
             }
         }
         ArgKind::Format => {
-            for f in ["'%p\\n'", "a", "'%%'", "'%p %s\\0'", "'\\101'", "'%{fid}'", "'%A@'", "'%TY'", "\"%u:%g\\n\"", "%p", "'a b'", "'%{xattr:abc}\\n'", "'\\\\'", "'%m %M'"] {
+            for f in ["'%p\\n'", "a", "'%%'", "'%p %s\\0'", "'\\101'", "'%{fid}'", "'%A@'", "'%TY'", "\"%u:%g\\n\"", "%p", "'a b'", "'%{xattr:abc}\\n'", "'\\\\'", "'%m %M'", "'%p\\012'", "'\\0'", "'a\\054b'"] {
                 v.push(f.into());
             }
         }
